@@ -645,6 +645,92 @@ def discrete(ctx, lines, info):
     return src
 
 
+# ---- GridFunction arithmetic ---------------------------------------------------------------------------------------------
+def gf_result(src, sc, call):
+    """GridFunction(self.space, coefficients|projections=<tm>, [dual_space=self.dual_space], [parameters=...]) -> gfres"""
+    if not (isinstance(call, ast.Call) and u(call.func) == "GridFunction" and len(call.args) == 1
+            and u(call.args[0]) == "self.space"):
+        src.fail(call, "expected GridFunction(self.space, ...)")
+    kw = {k.arg: k.value for k in call.keywords}
+    kw.pop("parameters", None)
+    kinds = [k for k in ("coefficients", "projections") if k in kw]
+    if len(kinds) != 1 or set(kw) - {"coefficients", "projections", "dual_space"}:
+        src.fail(call, "unrecognised GridFunction(...) keywords")
+    dual = "None"
+    if "dual_space" in kw:
+        a, k = sc.space(kw["dual_space"])
+        if a != "SSelf":
+            src.fail(call, "dual space of the result must come from self")
+        dual = "(Some %s)" % k
+    if kinds[0] == "projections" and dual == "None":
+        src.fail(call, "projections without a dual space")
+    return "{| r_kind := %s; r_term := %s; r_dual := %s |}" % (
+        "GKCoef" if kinds[0] == "coefficients" else "GKProj", sc.tm(kw[kinds[0]]), dual)
+
+
+def gf_branches(src, sc, stmts, cond=None):
+    """Nested `if c: (if d: return X)` without else -> [(c and d, X)]; statements after fall through."""
+    out = []
+    for s in stmts:
+        if isinstance(s, ast.If) and not s.orelse:
+            c = sc.guard(s.test)
+            c2 = c if cond is None else "(GAnd %s %s)" % (cond, c)
+            out += gf_branches(src, sc, s.body, c2)
+        elif isinstance(s, ast.Return) and cond is not None:
+            out.append((cond, gf_result(src, sc, s.value)))
+        else:
+            src.fail(s, "unrecognised statement in GridFunction.__add__")
+    return out
+
+
+def gridfun(ctx, lines, info):
+    src = Src(ctx, FILES["gridfun"])
+    c = "GridFunction"
+    sc = Scope(src, {"self": "SSelf", "other": "SR", "alpha": "SR"})
+
+    def raise_guard(stmt):
+        if not (isinstance(stmt, ast.If) and len(stmt.body) == 1 and isinstance(stmt.body[0], ast.Raise) and not stmt.orelse
+                and u(stmt.body[0].exc).startswith("ValueError(")):
+            src.fail(stmt, "expected `if ..: raise ValueError`")
+        return sc.guard(stmt.test)
+    add = body_of(src.method(c, "__add__"))
+    if len(add) < 2 or not isinstance(add[-1], ast.Return):
+        src.fail(src.method(c, "__add__"), "__add__ changed shape")
+    add_guard = raise_guard(add[0])
+    branches = gf_branches(src, sc, add[1:-1])
+    default = gf_result(src, sc, add[-1].value)
+    sub = body_of(src.method(c, "__sub__"))
+    if len(sub) != 2 or u(sub[1]) != "return self + -other":
+        src.fail(src.method(c, "__sub__"), "__sub__ changed shape")
+    sub_guard = raise_guard(sub[0])
+    mul = body_of(src.method(c, "__mul__"))
+    if not (len(mul) == 1 and isinstance(mul[0], ast.If) and u(mul[0].test) == "np.isscalar(alpha)"
+            and len(mul[0].body) == 1 and isinstance(mul[0].body[0], ast.If)
+            and [u(x) for x in mul[0].orelse] == ["return NotImplemented"]):
+        src.fail(src.method(c, "__mul__"), "__mul__ changed shape")
+    inner = mul[0].body[0]
+    if not (len(inner.body) == 1 and len(inner.orelse) == 1 and isinstance(inner.body[0], ast.Return)
+            and isinstance(inner.orelse[0], ast.Return)):
+        src.fail(inner, "__mul__ branches changed")
+    mul_cond = sc.guard(inner.test)
+    mul_then = gf_result(src, Scope(src, {"self": "SSelf"}), inner.body[0].value)
+    mul_else = gf_result(src, Scope(src, {"self": "SSelf"}), inner.orelse[0].value)
+    rm = [u(x) for x in body_of(src.method(c, "__rmul__"))]
+    if rm != ["if np.isscalar(alpha):\n    return self * alpha\nelse:\n    return NotImplemented"]:
+        src.fail(src.method(c, "__rmul__"), "__rmul__ changed")
+    if [u(x) for x in body_of(src.method(c, "__truediv__"))] != ["return self.__div__(alpha)"]:
+        src.fail(src.method(c, "__truediv__"), "__truediv__ changed")
+    div = sc.dexp(single_return(src, src.method(c, "__div__")))
+    neg = sc.dexp(single_return(src, src.method(c, "__neg__")))
+    lines.append("Definition GF : gfrules := {|\n  gf_add_guard := %s;\n  gf_add_branches := [%s];\n  gf_add_default := %s;\n"
+                 "  gf_sub_guard := %s; gf_sub := (DAdd DSelf (DNeg DOther));\n  gf_mul_cond := %s;\n  gf_mul_then := %s;\n"
+                 "  gf_mul_else := %s;\n  gf_rmul := (DMul DSelf DOther); gf_neg := %s; gf_div := %s |}." % (
+                     add_guard, "; ".join("(%s, %s)" % b for b in branches), default, sub_guard, mul_cond, mul_then, mul_else,
+                     neg, div))
+    info["gridfun"] = {"add_guard": add_guard, "branches": branches}
+    return src
+
+
 # ---- blocked pack / unpack ---------------------------------------------------------------------------------------------
 def packing(ctx, lines, info):
     src = Src(ctx, FILES["blocked"])
@@ -707,8 +793,10 @@ def op_classes(ctx):
     lines.insert(3, "From BV Require Import Algebra.PotLang.")
     psrc, asm = potential(ctx, lines, info)
     lines.insert(4, "From BV Require Import Algebra.DiscLang.")
+    lines.insert(5, "From BV Require Import Algebra.GfLang.")
     discrete(ctx, lines, info)
     packing(ctx, lines, info)
+    gridfun(ctx, lines, info)
     others = [Src(ctx, FILES[k]) for k in ("blocked", "discrete", "gridfun")]
     reg = Registry([bsrc, psrc, asm] + others)
     rows = resolution(reg, set(FILES.values()))
